@@ -204,8 +204,28 @@ PY_SUBCLASS_ONLY = {
 }
 
 
+def noexcept_rule(R, rule):
+    """No function of the mechanism is declared `noexcept`: an exception raised inside a noexcept cdef function is printed to stderr and
+    dropped, and the function returns a default value - a failure that should become a task's error or end the computation vanishes
+    (only in the compiled build)."""
+    n = 0
+    for mname in sorted(R.repo.cython_modules):
+        m = R.repo.modules[mname]
+        if m.pxd is None:
+            continue
+        fns = [(None, f) for f in m.pxd.functions.values()] + [(c.name, f) for c in m.pxd.classes.values() for f in c.methods.values()]
+        for cname, pf in fns:
+            n += 1
+            R.check(pf.exc != "noexcept", rule, "%s.%s%s:noexcept" % (mname, cname + "." if cname else "", pf.name), "%s:%d" % (m.pxd_path.split("/")[-1], pf.line),
+                    "%s propagates exceptions" % pf.name,
+                    "%s%s is declared noexcept: whatever is raised inside it (a context hook's error, a task's failure on its way out, KeyboardInterrupt) is "
+                    "printed and swallowed in the compiled build, and the caller goes on with a default return value" % (cname + "." if cname else "", pf.name))
+    return n
+
+
 def build_rules(R, ro):
     repo = R.repo
+    noexcept_rule(R, "C01.BUILD")
     for mname in repo.cython_modules:
         m = repo.modules[mname]
         if m.pxd is None:
